@@ -196,9 +196,42 @@ fn check_token(acc: &mut Acc, s: &str) {
     if !ok {
         match confirm(judge, Case::text("token", s, &[])) {
             Some(v) => acc.violate(v),
-            None => monitor::machinery_fail(&format!("C12 token mismatch on {:?} not reproduced", s)),
+            None => super::unreproduced(&format!("C12 token mismatch on {:?} not reproduced", s)),
         }
     }
+}
+
+/// k filler tokens followed by one card token that did not occur before
+pub fn long_texts() -> Vec<String> {
+    let d = deck();
+    let mut ks: Vec<usize> = (0..=300).collect();
+    for m in 9..=16u32 {
+        for dlt in [-1i64, 0, 1] {
+            ks.push(((1i64 << m) + dlt) as usize);
+        }
+    }
+    let mut out = Vec::new();
+    for k in ks {
+        for style in 0..3 {
+            let mut s = String::new();
+            for i in 0..k {
+                match style {
+                    0 => s.push_str("XX"),
+                    1 => s.push_str("AS"),
+                    _ => {
+                        // the deck except its last card, cycling
+                        let c = d[i % 51];
+                        s.push(crate::oracle::cards::RANK_CHARS[c.rank() as usize]);
+                        s.push(crate::oracle::cards::SUIT_LETTERS[c.suit() as usize]);
+                    }
+                }
+                s.push(' ');
+            }
+            s.push_str("2C");
+            out.push(s);
+        }
+    }
+    out
 }
 
 fn alphabet48() -> Vec<char> {
@@ -233,7 +266,7 @@ pub fn run(ctx: &Ctx, rep: &mut Report) {
                             }
                         }
                         if !found {
-                            monitor::machinery_fail("C12 symbol mismatch not reproduced");
+                            super::unreproduced("C12 symbol mismatch not reproduced");
                         }
                     }
                 }
@@ -375,7 +408,7 @@ pub fn run(ctx: &Ctx, rep: &mut Report) {
                         if let Verdict::Violated { .. } = judge(&Case::text("hand", &s, &[])) {
                             match confirm(judge, Case::text("hand", &s, &[])) {
                                 Some(v) => a.violate(v),
-                                None => monitor::machinery_fail("C12 hand verdict not reproduced"),
+                                None => super::unreproduced("C12 hand verdict not reproduced"),
                             }
                         }
                     }
@@ -390,6 +423,80 @@ pub fn run(ctx: &Ctx, rep: &mut Report) {
         rep.add_space("hand parsers: all token sequences of length 0..=7 over 7 tokens x 5 separator styles", &acc, t0, "TryFrom<&str> of Two..Seven, parse::five_from_index, BinaryCard::from_index");
         rep.sample(sample_json("hand", "\u{3000}AS\u{3000}kh\u{3000}", &format!("{:?}", Two::try_from("\u{3000}AS\u{3000}kh\u{3000}"))));
         rep.sample(sample_json("hand", "AS kh T♦ 0c", &format!("{:?}", Five::try_from("AS kh T♦ 0c"))));
+    }
+    // (d2) gap-width family: n two-byte card tokens with every combination of gap widths (a parser that reads at fixed
+    //      byte offsets, or that treats a wide gap as an empty token, is wrong only for particular layouts)
+    {
+        let t0 = Instant::now();
+        let cards = ["AS", "KD", "QH", "JC", "TS", "9D", "8H"];
+        let kind = monitor::kind_id("hand");
+        let mut jobs: Vec<(usize, char)> = Vec::new();
+        for n in 1..=7usize {
+            for ch in [' ', '\t'] {
+                jobs.push((n, ch));
+            }
+        }
+        let accs = par_parts(jobs.len(), |j| {
+            let (n, ch) = jobs[j];
+            let mut a = Acc::new(2);
+            // gap 0 = leading (0..=4), gaps 1..n-1 = inner (1..=4), gap n = trailing (0..=4)
+            let total = 5u64 * 4u64.pow(n as u32 - 1) * 5;
+            let mut s = String::new();
+            monitor::beat(kind, &[n as u64, total]);
+            for t in 0..total {
+                let mut x = t;
+                let lead = (x % 5) as usize;
+                x /= 5;
+                let trail = (x % 5) as usize;
+                x /= 5;
+                s.clear();
+                for _ in 0..lead {
+                    s.push(ch);
+                }
+                for (k, c) in cards.iter().take(n).enumerate() {
+                    if k > 0 {
+                        let wdt = 1 + (x % 4) as usize;
+                        x /= 4;
+                        for _ in 0..wdt {
+                            s.push(ch);
+                        }
+                    }
+                    s.push_str(c);
+                }
+                for _ in 0..trail {
+                    s.push(ch);
+                }
+                a.cases += 1;
+                a.calls += 8;
+                a.nontrivial += 1;
+                if let Verdict::Violated { .. } = judge(&Case::text("hand", &s, &[])) {
+                    match confirm(judge, Case::text("hand", &s, &[])) {
+                        Some(v) => a.violate(v),
+                        None => super::unreproduced("C12 gap-family verdict not reproduced"),
+                    }
+                }
+            }
+            a
+        });
+        let acc = Acc::merged(accs);
+        rep.add_space("hand parsers: 1..=7 card tokens x every combination of gap widths (lead/trail 0..=4, inner 1..=4) x {space, tab}", &acc, t0, "every byte layout of the separators up to width 4");
+    }
+    // (d3) long texts: k filler tokens followed by one card, k up to 300 and around powers of two up to 65,536
+    {
+        let t0 = Instant::now();
+        let mut acc = Acc::new(2);
+        for s in long_texts() {
+            acc.cases += 1;
+            acc.calls += 8;
+            acc.nontrivial += 1;
+            if let Verdict::Violated { .. } = judge(&Case::text("hand", &s, &[])) {
+                match confirm(judge, Case::text("hand", &s, &[])) {
+                    Some(v) => acc.violate(v),
+                    None => super::unreproduced("C12 long-text verdict not reproduced"),
+                }
+            }
+        }
+        rep.add_space("long texts: k filler tokens (junk / one repeated card / the cycling deck) then a new card, k = 0..=300 and 2^m - 1, 2^m, 2^m + 1 up to 65,537", &acc, t0, "a token cap or buffer limit shows only past the cap");
     }
     // (e) round trip
     {
